@@ -59,8 +59,10 @@ def grid_kind(items):
 
 
 @st.composite
-def grids(draw, min_n=3, max_n=8):
+def grids(draw, min_n=3, max_n=8, long_grid=0):
     n = draw(st.integers(min_n, max_n))
+    if long_grid and draw(st.integers(0, long_grid - 1)) == 0:
+        n = draw(st.sampled_from([16, 17, 25, 40]))  # a realistic number of years, beyond any small-size threshold
     kind = draw(st.sampled_from(["unit", "const", "uneven", "uneven", "uneven-float"]))
     start = draw(st.sampled_from([0, 1, 1900, 2000, 2015, -5]))
     if kind == "unit":
@@ -130,7 +132,8 @@ def lifetime_descs(draw, U, classes=None, well_conditioned=False):
             base = draw(el)
             nlab = gen._size(U, pl[1:])
             slopes = draw(st.lists(st.sampled_from([0.0, 0.05, 0.1, 0.2, -0.03]), min_size=nlab, max_size=nlab))
-            vals = [base * (1 + s_ * ti) for ti in range(len(grid)) for s_ in slopes]
+            k_ = 7.0 / max(7, len(grid) - 1)  # total drift over a long grid stays what it is over 8 cohorts (parameters stay admissible)
+            vals = [base * (1 + s_ * ti * k_) for ti in range(len(grid)) for s_ in slopes]
             prms[name] = {"kind": "array", "letters": pl, "vals": vals}
         else:
             if kind == "drift":
@@ -175,8 +178,8 @@ def lt_varies(lt):
 
 
 @st.composite
-def stock_configs(draw, classes=("simple", "idsm", "sdsm_manual", "sdsm_lapack"), max_n=8, well_conditioned=False, signed=False, lt_classes=None, max_extra=2):
-    grid = draw(grids(max_n=max_n))
+def stock_configs(draw, classes=("simple", "idsm", "sdsm_manual", "sdsm_lapack"), max_n=8, well_conditioned=False, signed=False, lt_classes=None, max_extra=2, long_grid=0):
+    grid = draw(grids(max_n=max_n, long_grid=long_grid))
     cfg = {"grid": grid, "extra": draw(extras(max_extra=max_extra)), "cls": draw(st.sampled_from(list(classes)))}
     U = universe_of(cfg)
     n = gen._size(U, gen.uletters(U))
